@@ -36,7 +36,7 @@ Rcv == Corrupt(Sent, errs, 1)
 Within == Len(errs) <= T(R(sh))
 
 Init == sh \in 1..Len(Shapes) /\ pat \in Pats /\ errs = <<>> /\ done = FALSE
-AddErr == /\ Len(errs) < MaxErr /\ ~done
+AddErr == /\ Len(errs) < MaxErr /\ Len(errs) <= T(R(sh)) /\ ~done          \* weights 0 .. min(MaxErr, capacity + 1)
           /\ \E pos \in (IF errs = <<>> THEN 0 ELSE errs[Len(errs)][1] + 1)..(N(sh) - 1), mag \in Mags(F(sh)) :
                 errs' = Append(errs, <<pos, mag>>)
           /\ UNCHANGED <<sh, pat, done>>
